@@ -71,6 +71,11 @@ bool IsValidUtf8(std::string_view s) {
 }
 
 json PutBytes(std::string_view bytes) {
+  static constexpr size_t maxLen = 20000;
+  if (bytes.size() > maxLen) {
+    // very long texts are reported by length, prefix and hash (they are compared, never inspected)
+    return json{ {"long", bytes.size()}, {"hash", std::hash<std::string_view>{}(bytes)}, {"head", PutBytes(bytes.substr(0, 64))} };
+  }
   if (IsValidUtf8(bytes)) {
     return std::string{ bytes };
   }
